@@ -153,3 +153,315 @@ Proof.
     pose proof (digits_n_bounds _ _ D) as Hd. explode c L. pose_upto Hd 14%nat. clear Hd D Dg.
     unfold dig in *. cbn [br_W1 br_W2 digs map wsum nthb nth] in *. split; lia.
 Qed.
+
+(* ======================= ES ======================= *)
+Lemma one_of_In s b : one_of s b = true <-> In b s.
+Proof.
+  unfold one_of. rewrite existsb_exists. split.
+  - intros (y & Hy & E). apply byte_eqb_eq in E. subst y. exact Hy.
+  - intro H. exists b. split; [exact H | apply byte_eqb_refl].
+Qed.
+Lemma letter_at_In table r k : letter_at table r k -> In k (bs table).
+Proof. unfold letter_at. apply nth_error_In. Qed.
+Lemma nth_letter_at table r k :
+  0 <= r < Z.of_nat (List.length (bs table)) -> (nthb (Z.to_nat r) (bs table) = k <-> letter_at table r k).
+Proof.
+  intro R. unfold letter_at, nthb. rewrite (nth_error_nth' (bs table) x00) by lia.
+  split; [intros ->; reflexivity | intro H; injection H; auto].
+Qed.
+Lemma es_letter_ok_iff n k : es_letter_ok n k = true <-> letter_at es_dni_letters (n mod 23) k.
+Proof.
+  unfold es_letter_ok. rewrite byte_eqb_eq. change es_check_letters with (bs es_dni_letters).
+  apply nth_letter_at. assert (E : List.length (bs es_dni_letters) = 23%nat) by reflexivity. rewrite E. lia.
+Qed.
+
+Lemma es_control_iff k D :
+  0 <= D <= 9 -> es_is_org_check k = true ->
+  ((D =? es_cdi k) = true <-> (is_digit k = true /\ dv k = D) \/ letter_at es_control_letters D k).
+Proof.
+  intros R H.
+  assert (C : D = 0 \/ D = 1 \/ D = 2 \/ D = 3 \/ D = 4 \/ D = 5 \/ D = 6 \/ D = 7 \/ D = 8 \/ D = 9) by lia.
+  clear R.
+  destruct k; vm_compute in H; try discriminate H; clear H;
+    repeat (destruct C as [C|C]; [subst D; vm_compute;
+      (split; [intro H; try discriminate H; first [left; split; reflexivity | right; reflexivity]
+              | intros [[_ H]|H]; first [reflexivity | discriminate H]]) |]);
+    (subst D; vm_compute;
+      (split; [intro H; try discriminate H; first [left; split; reflexivity | right; reflexivity]
+              | intros [[_ H]|H]; first [reflexivity | discriminate H]])).
+Qed.
+
+Lemma es_control_value_range c : 0 <= es_control_value c <= 9.
+Proof. unfold es_control_value. match goal with |- context [(10 - ?x mod 10) mod 10] => generalize x end. intro. lia. Qed.
+
+Lemma es_verify_org_explicit t a1 a2 a3 a4 a5 a6 a7 k :
+  es_verify_org (sub 1 8 [t; a1; a2; a3; a4; a5; a6; a7; k]) (nthb 8 [t; a1; a2; a3; a4; a5; a6; a7; k])
+  = (es_control_value [t; a1; a2; a3; a4; a5; a6; a7; k] =? es_cdi k).
+Proof.
+  unfold es_verify_org, es_control_value, dig. fold (es_cdi (nthb 8 [t; a1; a2; a3; a4; a5; a6; a7; k])).
+  cbn [sub skipn firstn Nat.sub digs map es_org_sum negb nthb nth]. cbv zeta. rewrite !luhn2_double.
+  apply (f_equal (fun s => (10 - s mod 10) mod 10 =? es_cdi k)). ring.
+Qed.
+
+Lemma control_is_org_check D k :
+  (is_digit k = true /\ dv k = D) \/ letter_at es_control_letters D k -> es_is_org_check k = true.
+Proof.
+  unfold es_is_org_check. intros [[H _]|H]; [rewrite H; reflexivity|].
+  apply letter_at_In, one_of_In in H. change (bs es_control_letters) with es_org_check_letters in H.
+  rewrite H. apply orb_true_r.
+Qed.
+
+Lemma zero_number_eqb a1 a2 a3 a4 a5 a6 a7 a8 :
+  is_digit a1 = true -> is_digit a2 = true -> is_digit a3 = true -> is_digit a4 = true ->
+  is_digit a5 = true -> is_digit a6 = true -> is_digit a7 = true -> is_digit a8 = true ->
+  (eqb_bytes [a1; a2; a3; a4; a5; a6; a7; a8] (bs "00000000") = true <-> num_of [a1; a2; a3; a4; a5; a6; a7; a8] = 0).
+Proof.
+  intros. split.
+  - intro E. apply eqb_bytes_eq in E. rewrite E. reflexivity.
+  - intro E. pose_dv_bounds. horner_in E.
+    assert (Z0 : forall a, dv a = 0 -> a = "0"%byte) by (intros a Ha; apply dv_inj; rewrite Ha; reflexivity).
+    rewrite (Z0 a1), (Z0 a2), (Z0 a3), (Z0 a4), (Z0 a5), (Z0 a6), (Z0 a7), (Z0 a8) by lia. reflexivity.
+Qed.
+
+Lemma klm_excl t : one_of (bs "KLM") t = true ->
+  one_of es_org_types t = false /\ is_digit t = false /\ one_of (bs "XYZ") t = false.
+Proof. bytecases t. Qed.
+Lemma xyz_excl t : one_of (bs "XYZ") t = true -> one_of es_org_types t = false /\ is_digit t = false.
+Proof. bytecases t. Qed.
+Lemma org_excl t : one_of es_org_types t = true ->
+  is_digit t = false /\ one_of (bs "XYZ") t = false /\ one_of (bs "KLM") t = false.
+Proof. bytecases t. Qed.
+Lemma digit_excl t : is_digit t = true -> one_of (bs "XYZ") t = false /\ one_of (bs "KLM") t = false.
+Proof. bytecases t. Qed.
+Lemma xyz_klm t : one_of (bs "XYZ") t = true -> one_of (bs "KLM") t = false.
+Proof. bytecases t. Qed.
+Lemma first_letter_split t :
+  In t (bs "ABCDEFGHJNPQRSUVWKLM") <-> one_of es_org_types t = true \/ one_of (bs "KLM") t = true.
+Proof.
+  rewrite !one_of_In. change (bs "ABCDEFGHJNPQRSUVWKLM") with (es_org_types ++ bs "KLM"). apply in_app_iff.
+Qed.
+Lemma es_nie_prefix_iff t v :
+  es_nie_prefix t v <-> one_of (bs "XYZ") t = true /\ v = dv (digit_byte (es_ti t)).
+Proof.
+  unfold es_nie_prefix. split.
+  - intros [[-> ->]|[[-> ->]|[-> ->]]]; split; reflexivity.
+  - intros [H ->]. apply one_of_In in H. cbn in H.
+    destruct H as [<-|[<-|[<-|[]]]]; [left | right; left | right; right]; split; reflexivity.
+Qed.
+
+Section ES_explicit.
+  Variables t a1 a2 a3 a4 a5 a6 a7 k : byte.
+  Let c : bytes := [t; a1; a2; a3; a4; a5; a6; a7; k].
+  Let mid : bool := is_digit a1 && (is_digit a2 && (is_digit a3 && (is_digit a4 && (is_digit a5 && (is_digit a6 && is_digit a7))))).
+
+  Lemma es_fmt_org_explicit : es_fmt_org c = one_of es_org_types t && (mid && es_is_org_check k).
+  Proof. unfold es_fmt_org, c, mid. cbn [rep repeat app match_classes]. rewrite andb_true_r, <- !andb_assoc. reflexivity. Qed.
+  Lemma es_fmt_other_explicit : es_fmt_other c = one_of (bs "KLM") t && (mid && es_is_org_check k).
+  Proof. unfold es_fmt_other, c, mid. cbn [rep repeat app match_classes]. rewrite andb_true_r, <- !andb_assoc. reflexivity. Qed.
+  Lemma es_fmt_foreign_explicit : es_fmt_foreign c = one_of (bs "XYZ") t && (mid && es_is_check_letter k).
+  Proof. unfold es_fmt_foreign, c, mid. cbn [rep repeat app match_classes]. rewrite andb_true_r, <- !andb_assoc. reflexivity. Qed.
+  Lemma es_fmt_national_explicit : es_fmt_national c = is_digit t && (mid && es_is_check_letter k).
+  Proof. unfold es_fmt_national, c, mid. cbn [rep repeat app match_classes]. rewrite andb_true_r, <- !andb_assoc. reflexivity. Qed.
+
+  Lemma mid_between : mid = true <-> digits_between c 1 8.
+  Proof.
+    unfold mid, c. split.
+    - intro M. split_all M. solve_between 8%nat.
+    - intro Dg. pose_between Dg 1%nat 7%nat. solve_digits.
+  Qed.
+
+  (* CIF and K L M: the control character *)
+  Lemma es_org_explicit :
+    mid = true ->
+    (es_is_org_check k = true /\ es_verify_org (sub 1 8 c) (nthb 8 c) = true <->
+     (digit_at c 8 /\ dig c 8 = es_control_value c) \/ letter_at es_control_letters (es_control_value c) (nthb 8 c)).
+  Proof.
+    intro M. unfold c. rewrite es_verify_org_explicit. unfold digit_at, dig. cbn [nthb nth]. fold c. split.
+    - intros (K & V). apply es_control_iff in V; [exact V | apply es_control_value_range | exact K].
+    - intro R. pose proof (control_is_org_check _ _ R) as K. split; [exact K|].
+      apply es_control_iff; [apply es_control_value_range | exact K | exact R].
+  Qed.
+
+  Lemma es_national_explicit :
+    is_digit t = true -> mid = true ->
+    (es_is_check_letter k = true /\ es_verify_national c = true <->
+     number c 0 8 <> 0 /\ letter_at es_dni_letters ((number c 0 8) mod 23) (nthb 8 c)).
+  Proof.
+    intros T M. unfold mid in M. split_all M. unfold es_verify_national, number. cbv zeta.
+    change (sub 0 8 c) with [t; a1; a2; a3; a4; a5; a6; a7]. change (nthb 8 c) with k.
+    pose proof (zero_number_eqb t a1 a2 a3 a4 a5 a6 a7 ltac:(assumption) ltac:(assumption) ltac:(assumption) ltac:(assumption)
+                  ltac:(assumption) ltac:(assumption) ltac:(assumption) ltac:(assumption)) as Z0.
+    generalize dependent (num_of [t; a1; a2; a3; a4; a5; a6; a7]). intros n Z0.
+    destruct (eqb_bytes _ _) eqn:E.
+    - split; [intros (_ & F); discriminate F | intros (NZ & _); exfalso; apply NZ, Z0; reflexivity].
+    - rewrite es_letter_ok_iff. split.
+      + intros (_ & V). split; [intro N0; apply Z0 in N0; discriminate N0 | exact V].
+      + intros (_ & V). split; [|exact V]. apply letter_at_In, one_of_In in V. exact V.
+  Qed.
+
+  Lemma es_foreign_explicit :
+    one_of (bs "XYZ") t = true -> mid = true ->
+    (es_is_check_letter k = true /\ es_verify_foreign c = true <->
+     exists v, es_nie_prefix (nthb 0 c) v /\ letter_at es_dni_letters ((v * 10 ^ 7 + number c 1 8) mod 23) (nthb 8 c)).
+  Proof.
+    intros T M. rewrite es_verify_foreign_unfold. unfold number.
+    change (sub 1 8 c) with [a1; a2; a3; a4; a5; a6; a7]. change (nthb 8 c) with k. change (nthb 0 c) with t.
+    rewrite es_letter_ok_iff.
+    assert (E : num_of (digit_byte (es_ti t) :: [a1; a2; a3; a4; a5; a6; a7])
+                = dv (digit_byte (es_ti t)) * 10 ^ 7 + num_of [a1; a2; a3; a4; a5; a6; a7]).
+    { generalize (digit_byte (es_ti t)). intro d. horner. change (10 ^ 7) with 10000000. lia. }
+    rewrite E. split.
+    - intros (_ & V). exists (dv (digit_byte (es_ti t))). split; [apply es_nie_prefix_iff; split; [exact T | reflexivity] | exact V].
+    - intros (v & P & V). apply es_nie_prefix_iff in P. destruct P as (_ & ->).
+      split; [|exact V]. apply letter_at_In, one_of_In in V. exact V.
+  Qed.
+
+  Theorem valid_ES_explicit : valid_ES c = true <-> Spec_ES_either_form c.
+  Proof.
+    unfold Spec_ES_either_form, Spec_ES_with, Spec_ES_dni, Spec_ES_nie, Spec_ES_cif_with, es_any_form, first_is_one_of.
+    change (nthb 0 c) with t. rewrite first_letter_split, <- !mid_between.
+    assert (Valid : valid_ES c =
+                    if es_fmt_org c then es_verify_org (sub 1 8 c) (nthb 8 c)
+                    else if es_fmt_national c then es_verify_national c
+                    else if es_fmt_foreign c then es_verify_foreign c
+                    else if es_fmt_other c then es_verify_org (sub 1 8 c) (nthb 8 c) else false) by reflexivity.
+    rewrite Valid. clear Valid.
+    rewrite es_fmt_org_explicit, es_fmt_national_explicit, es_fmt_foreign_explicit, es_fmt_other_explicit.
+    assert (Dg07 : digits_between c 0 8 <-> is_digit t = true /\ mid = true).
+    { rewrite mid_between. split.
+      - intro Dg. split; [apply (Dg 0%nat); lia | intros i Hi; apply Dg; lia].
+      - intros (T & Dg) i Hi. destruct i as [|i]; [exact T | apply Dg; lia]. }
+    rewrite Dg07.
+    destruct mid eqn:M.
+    2:{ rewrite !andb_false_r. cbn [andb]. split; [discriminate|].
+        intros [(_ & (_ & F) & _)|[(_ & F & _)|(_ & _ & F & _)]]; discriminate F. }
+    pose proof (es_org_explicit M) as ORG. cbn [andb].
+    assert (NIE : forall v, es_nie_prefix t v -> one_of (bs "XYZ") t = true)
+      by (intros v P; apply es_nie_prefix_iff in P; tauto).
+    assert (CTL : (digit_at c 8 /\ dig c 8 = es_control_value c /\ True \/
+                   letter_at es_control_letters (es_control_value c) (nthb 8 c) /\ True) <->
+                  es_is_org_check k = true /\ es_verify_org (sub 1 8 c) (nthb 8 c) = true)
+      by (rewrite ORG; tauto).
+    rewrite CTL. clear CTL ORG.
+    destruct (one_of es_org_types t) eqn:T1.
+    { (* CIF *)
+      destruct (org_excl t T1) as (E2 & E3 & E4). rewrite E2, E3, E4. cbn [andb].
+      destruct (es_is_org_check k) eqn:K.
+      - split.
+        + intro V. right; right. repeat split; auto.
+        + intros [(_ & (F & _) & _)|[(_ & _ & v & P & _)|(_ & _ & _ & _ & R)]];
+            [discriminate F | apply NIE in P; congruence | exact R].
+      - split; [discriminate|].
+        intros [(_ & (F & _) & _)|[(_ & _ & v & P & _)|(_ & _ & _ & F & _)]];
+          [discriminate F | apply NIE in P; congruence | discriminate F]. }
+    destruct (is_digit t) eqn:T2.
+    { (* DNI *)
+      pose proof (es_national_explicit T2 M) as NAT.
+      destruct (digit_excl t T2) as (E3 & E4). rewrite E3, E4. cbn [andb].
+      destruct (es_is_check_letter k) eqn:K.
+      - split.
+        + intro V. left. split; [reflexivity|]. split; [split; reflexivity|]. apply NAT. split; [reflexivity | exact V].
+        + intros [(_ & _ & R)|[(_ & _ & v & P & _)|(_ & [F|F] & _)]];
+            [apply NAT in R; tauto | apply NIE in P; congruence | discriminate F | discriminate F].
+      - split; [discriminate|].
+        intros [(_ & _ & R)|[(_ & _ & v & P & _)|(_ & [F|F] & _)]];
+          [apply NAT in R; destruct R as (R & _); discriminate R | apply NIE in P; congruence | discriminate F | discriminate F]. }
+    cbn [andb].
+    destruct (one_of (bs "XYZ") t) eqn:T3.
+    { (* NIE *)
+      pose proof (es_foreign_explicit T3 M) as FOR.
+      rewrite (xyz_klm t T3). cbn [andb].
+      destruct (es_is_check_letter k) eqn:K.
+      - split.
+        + intro V. right; left. split; [reflexivity|]. split; [reflexivity|]. apply FOR. split; [reflexivity | exact V].
+        + intros [(_ & (F & _) & _)|[(_ & _ & R)|(_ & [F|F] & _)]];
+            [discriminate F | apply FOR in R; tauto | discriminate F | discriminate F].
+      - split; [discriminate|].
+        intros [(_ & (F & _) & _)|[(_ & _ & R)|(_ & [F|F] & _)]];
+          [discriminate F | apply FOR in R; destruct R as (R & _); discriminate R | discriminate F | discriminate F]. }
+    cbn [andb].
+    (* K L M *)
+    destruct (one_of (bs "KLM") t) eqn:T4; cbn [andb].
+    - destruct (es_is_org_check k) eqn:K.
+      + split.
+        * intro V. right; right. repeat split; auto.
+        * intros [(_ & (F & _) & _)|[(_ & _ & v & P & _)|(_ & _ & _ & _ & R)]];
+            [discriminate F | apply NIE in P; congruence | exact R].
+      + split; [discriminate|].
+        intros [(_ & (F & _) & _)|[(_ & _ & v & P & _)|(_ & _ & _ & F & _)]];
+          [discriminate F | apply NIE in P; congruence | discriminate F].
+    - split; [discriminate|].
+      intros [(_ & (F & _) & _)|[(_ & _ & v & P & _)|(_ & [F|F] & _)]];
+        [discriminate F | apply NIE in P; congruence | discriminate F | discriminate F].
+  Qed.
+End ES_explicit.
+
+Lemma es_length c : valid_ES c = true -> c <> [] -> List.length c = 9%nat.
+Proof.
+  unfold valid_ES, nonempty. destruct c as [|x c]; [congruence|]. intros V _.
+  destruct (es_fmt_org (x :: c)) eqn:F1; [apply match_classes_length in F1; exact F1|].
+  destruct (es_fmt_national (x :: c)) eqn:F2; [apply match_classes_length in F2; exact F2|].
+  destruct (es_fmt_foreign (x :: c)) eqn:F3; [apply match_classes_length in F3; exact F3|].
+  destruct (es_fmt_other (x :: c)) eqn:F4; [apply match_classes_length in F4; exact F4|discriminate].
+Qed.
+Lemma spec_es_length allowed c : Spec_ES_with allowed c -> List.length c = 9%nat.
+Proof. intros [(L & _)|[(L & _)|(L & _)]]; exact L. Qed.
+
+(* the validator accepts exactly the published shapes and check characters, with either form of
+   the CIF control character whatever the first letter *)
+Theorem valid_ES_iff_either_form c : valid_ES c = true <-> c = [] \/ Spec_ES_either_form c.
+Proof.
+  destruct c as [|x c]; [split; auto|]. split.
+  - intro V. right. pose proof (es_length _ V ltac:(discriminate)) as L.
+    cbn [List.length] in L. injection L as L. explode c L. apply valid_ES_explicit. exact V.
+  - intros [?|S]; [discriminate|]. pose proof (spec_es_length _ _ S) as L.
+    cbn [List.length] in L. injection L as L. explode c L. apply valid_ES_explicit. exact S.
+Qed.
+
+Lemma Spec_ES_with_mono (p q : byte -> control_form -> Prop) c :
+  (forall t f, p t f -> q t f) -> Spec_ES_with p c -> Spec_ES_with q c.
+Proof.
+  intros Hpq [S|[S|(L & T & Dg & R)]]; [left; exact S | right; left; exact S | right; right].
+  split; [exact L|]. split; [exact T|]. split; [exact Dg|].
+  destruct R as [(A & B & C)|(A & C)]; [left | right]; repeat split; auto.
+Qed.
+
+(* every code of the published rule is accepted ... *)
+Theorem spec_ES_accepted c : c = [] \/ Spec_ES c -> valid_ES c = true.
+Proof.
+  intro H. apply valid_ES_iff_either_form. destruct H as [H|H]; [left; exact H | right].
+  apply (Spec_ES_with_mono es_published_form es_any_form); [intros; exact I | exact H].
+Qed.
+
+(* ... but the validator also accepts the control character in the form the first letter excludes:
+   Q2826000H (a public body: letter) is accepted as Q28260008, A58818501 (a company: digit) as A5881850A *)
+Ltac concrete_between :=
+  let i := fresh "i" in let Hi := fresh "Hi" in
+  intros i Hi; unfold digit_at; do 16 (destruct i as [|i]; [first [lia | vm_compute; reflexivity]|]); lia.
+Ltac not_spec_es :=
+  unfold Spec_ES, Spec_ES_with, Spec_ES_dni, Spec_ES_nie, Spec_ES_cif_with, es_nie_prefix;
+  intros [E|[(_ & Dg & _)|[(_ & _ & v & [(E & _)|[(E & _)|(E & _)]] & _)|(_ & _ & _ & [(D & _ & F)|(LA & F)])]]];
+  [ discriminate E
+  | specialize (Dg 0%nat ltac:(lia)); vm_compute in Dg; discriminate Dg
+  | discriminate E | discriminate E | discriminate E
+  | first [ vm_compute in D; discriminate D | unfold es_published_form in F; apply F; cbn; repeat first [left; reflexivity | right] ]
+  | first [ vm_compute in LA; discriminate LA | unfold es_published_form in F; apply F; cbn; repeat first [left; reflexivity | right] ] ].
+
+Theorem valid_ES_iff_spec_refuted :
+  (exists c, valid_ES c = true /\ ~ (c = [] \/ Spec_ES c)) /\
+  valid_ES (bs "Q28260008") = true /\ ~ Spec_ES (bs "Q28260008") /\ Spec_ES (bs "Q2826000H") /\
+  valid_ES (bs "A5881850A") = true /\ ~ Spec_ES (bs "A5881850A") /\ Spec_ES (bs "A58818501").
+Proof.
+  assert (N1 : ~ (bs "Q28260008" = [] \/ Spec_ES (bs "Q28260008"))) by not_spec_es.
+  assert (N2 : ~ (bs "A5881850A" = [] \/ Spec_ES (bs "A5881850A"))) by not_spec_es.
+  assert (P : forall c, (c = [] \/ Spec_ES_either_form c) -> c <> [] -> Spec_ES_either_form c) by (intros c [E|S] NE; [contradiction | exact S]).
+  split; [exists (bs "Q28260008"); split; [vm_compute; reflexivity | exact N1]|].
+  split; [vm_compute; reflexivity|]. split; [tauto|].
+  split.
+  { right; right. split; [reflexivity|]. split; [cbn; tauto|]. split; [concrete_between|].
+    right. split; [vm_compute; reflexivity|]. cbn. intros [E|[E|[E|[E|[]]]]]; discriminate E. }
+  split; [vm_compute; reflexivity|]. split; [tauto|].
+  right; right. split; [reflexivity|]. split; [cbn; tauto|]. split; [concrete_between|].
+  left. split; [vm_compute; reflexivity|]. split; [vm_compute; reflexivity|].
+  cbn. intros [E|[E|[E|[E|[E|[E|[E|[E|[E|[]]]]]]]]]]; discriminate E.
+Qed.
